@@ -116,6 +116,13 @@ def gen_case(r) -> dict:
     # (drawn from a generator of its own so that the trees of earlier runs stay the same)
     r2 = core.rng(PROP, "spell", r.random())
     case["spell"] = [r2.choice(["plain", "plain", "dotdot", "dot", "slash", "Path", "dotdot-Path"]) for _ in case["dirs"]]
+    # an explicitly empty `dirs` / `app_dirs` means "none" (not "the default"): the trees stay on disk as decoys
+    x = core.rng(PROP, "explicit-empty", r.random()).random()
+    if mode in ("dirs", "dirs2") and x < 0.12:
+        case["decoy_dir"] = case["dirs"][0]["tree"]
+        case["dirs"], case["spell"], case["explicit_empty"] = [], [], "dirs"
+    elif case["apps"] and x < 0.24:
+        case["decoy_apps"], case["apps"], case["explicit_empty"] = case["apps"], [], "app_dirs"
     return case
 
 
@@ -160,17 +167,22 @@ def run_case(case: dict) -> Tuple[Any, List[dict], Any]:
                     for fn in fns:
                         t.append(os.path.relpath(os.path.join(dp, fn), root).split("/"))
                 d["tree"] = sorted(t)
+        if case.get("decoy_dir") is not None:
+            write_tree(os.path.join(base, "components"), case["decoy_dir"])
         installed = ["django_components"]
-        for a in case["apps"]:
+        for a in case["apps"] + (case.get("decoy_apps") or []):
             pk = os.path.join(appbase, a["pkg"])
             os.makedirs(pk)
             open(os.path.join(pk, "__init__.py"), "w").close()
             write_tree(os.path.join(pk, "components"), a["tree"])
             installed.append(a["pkg"])
         importlib.invalidate_caches()
-        comps: Dict[str, Any] = {"autodiscover": False, "app_dirs": ["components"]}
+        comps: Dict[str, Any] = {"autodiscover": False, "app_dirs": [] if case.get("explicit_empty") == "app_dirs" else ["components"]}
         extra: Dict[str, Any] = {"BASE_DIR": base, "INSTALLED_APPS": installed, "STATICFILES_DIRS": []}
         cfg_paths = [spelled(base, p, how) for p, how in zip(dir_paths, case.get("spell") or ["plain"] * len(dir_paths))]
+        if case.get("explicit_empty") == "dirs":
+            # `dirs = []` is a setting, not the absence of one: the legacy STATICFILES_DIRS fallback must stay off
+            extra["STATICFILES_DIRS"] = [os.path.join(base, "components")]
         if case["mode"] == "legacy":
             extra["STATICFILES_DIRS"] = cfg_paths
         elif case["mode"] == "legacy-tuple":
@@ -194,7 +206,7 @@ def run_case(case: dict) -> Tuple[Any, List[dict], Any]:
                             owner = ("app", a["pkg"], os.path.relpath(fp, ar))
                     if owner is None and fp.startswith(os.path.dirname(sys.modules["django_components"].__file__)):
                         continue  # the library's own app-level components directory
-                    impl.append([e.dot_path, list(owner) if owner else ["?", fp]])
+                    impl.append([e.dot_path, list(owner) if owner else ["?", "", os.path.relpath(fp, base)]])
             except Exception as ex:
                 impl = "EXC:" + type(ex).__name__ + ":" + str(ex)[:200]
             # importability of plain modules
@@ -254,6 +266,10 @@ def run(tier: str) -> int:
              {"mode": "dirs", "suffix": ".py", "apps": [{"pkg": "c20appfixed", "tree": [["x.y.py"], ["sub", "z..py"], ["__init__.py"], ["m.py"]]}],
               "dirs": [{"above": ["components"], "tree": [["x.y.py"], ["sub", "z..py"], ["_b.py"], ["_priv", "p.py"], [".hid", "h.py"], ["sub", ".g.py"],
                                                            ["we-ird", "h.py"], ["__init__.py"], ["sub", "__init__.py"], ["pkg", "mod.py"]]}]}]
+    fixed += [{"mode": "dirs", "suffix": ".py", "dirs": [], "apps": [], "spell": [], "explicit_empty": "dirs",
+               "decoy_dir": [["a.py"], ["sub", "b.py"]]},
+              {"mode": "dirs", "suffix": ".py", "dirs": [{"above": ["components"], "tree": [["a.py"]]}], "apps": [], "spell": ["plain"],
+               "explicit_empty": "app_dirs", "decoy_apps": [{"pkg": "c20appdecoy", "tree": [["x.py"], ["sub", "y.py"]]}]}]
     cases = fixed + [gen_case(core.rng(PROP, "tree", i)) for i in range(n)]
     results = [run_case(c) for c in cases]
     flat = [r for _, reqs, _ in results for r in reqs]
@@ -267,6 +283,8 @@ def run(tier: str) -> int:
             if "error" in rep:
                 raise core.InfraError(f"driver: {rep['error']}")
         shown = {"mode": case["mode"], "suffix": case["suffix"], "dirs": case["dirs"], "apps": case["apps"], "spell": case.get("spell")}
+        if case.get("explicit_empty"):
+            shown.update(explicit_empty=case["explicit_empty"], decoy_dir=case.get("decoy_dir"), decoy_apps=case.get("decoy_apps"))
         if not isinstance(impl, list):
             ch.violation("impl-violates-spec", "tree", shown, impl=impl, spec="get_component_files raised")
             break
@@ -286,7 +304,7 @@ def run(tier: str) -> int:
             for f in a["tree"]:
                 if public(f, case["suffix"]):
                     exp.append(("app", a["pkg"], "/".join(f), expected_dot([a["pkg"], "components"], f, case["suffix"]) if plain([a["pkg"], "components"] + f, case["suffix"]) else None))
-        feats = [case["mode"], "apps" if case["apps"] else "no-apps"]
+        feats = [case["mode"], "apps" if case["apps"] else "no-apps"] + (["explicit-empty-" + case["explicit_empty"]] if case.get("explicit_empty") else [])
         got_keys = sorted((o[0], str(o[1]), o[2]) for _, o in impl)
         exp_keys = sorted((e[0], str(e[1]), e[2]) for e in exp)
         if len(exp) and len(exp) < sum(len(d["tree"]) for d in case["dirs"]) + sum(len(a["tree"]) for a in case["apps"]):
